@@ -12,6 +12,9 @@ EXEMPT = {"UpdateParams", "MigrateUnbondWaitList"}
 
 def is_pause_test(sem, x, resolve):
     """x is `Parameters.paused.unwrap_or(false)` of the stored parameters"""
+    if x.op == "param":
+        # the flag handed to a helper (`rule.check(paused)`): what the caller passed
+        x = resolve(x)
     if x.op == "call" and x.info == "std::option::Option::unwrap_or" and len(x.args) == 2:
         lab = sem.label(resolve(x.args[0]))
         d = x.args[1]
